@@ -59,6 +59,10 @@ func unitRemuxerH265(forma format.Format, payload unit.Payload) unit.Payload {
 	n := 0
 
 	for _, nalu := range au {
+		if len(nalu) == 0 {
+			continue
+		}
+
 		typ := h265.NALUType((nalu[0] >> 1) & 0b111111)
 
 		switch typ {
@@ -96,6 +100,10 @@ func unitRemuxerH265(forma format.Format, payload unit.Payload) unit.Payload {
 	}
 
 	for _, nalu := range au {
+		if len(nalu) == 0 {
+			continue
+		}
+
 		typ := h265.NALUType((nalu[0] >> 1) & 0b111111)
 
 		switch typ {
@@ -121,6 +129,10 @@ func unitRemuxerH264(forma format.Format, payload unit.Payload) unit.Payload {
 	n := 0
 
 	for _, nalu := range au {
+		if len(nalu) == 0 {
+			continue
+		}
+
 		typ := h264.NALUType(nalu[0] & 0x1F)
 
 		switch typ {
@@ -157,6 +169,10 @@ func unitRemuxerH264(forma format.Format, payload unit.Payload) unit.Payload {
 	}
 
 	for _, nalu := range au {
+		if len(nalu) == 0 {
+			continue
+		}
+
 		typ := h264.NALUType(nalu[0] & 0x1F)
 
 		switch typ {
